@@ -273,17 +273,29 @@ BuildRelTyped(d, s) ==
 
 \* untyped levels: the documented example fixes the types of five numbers; otherwise hwloc "chooses all types
 \* according to usual topologies": any assignment of distinct level types (several Groups allowed) is accepted
-Candidates(s) == {s.lv[k].type : k \in DOMAIN s.lv} \cup {GROUP, NUMANODE}
+\* candidate types of the i-th untyped level: the types of the levels of s that are as wide, a Group (removed or
+\* kept), or the NUMA level
+CandidatesAt(d, s, i) ==
+  IF i = NL(d) THEN {PU}
+  ELSE ({s.lv[k].type : k \in {x \in DOMAIN s.lv : s.lv[x].nb = WidthAt(d, i)}} \cap LevelTypes) \cup {GROUP}
+       \cup (IF AllAtt(d) = <<>> THEN {NUMANODE} ELSE {})
+RECURSIVE TypeSeqs(_, _, _)
+TypeSeqs(d, s, i) == IF i > NL(d) THEN {<<>>} ELSE {<<x>> \o r : x \in CandidatesAt(d, s, i), r \in TypeSeqs(d, s, i + 1)}
 Assignments(d, s) ==
-  {ty \in [1..NL(d) -> Candidates(s) \cup {PU}] :
-      /\ ty[NL(d)] = PU
-      /\ \A i \in 1..(NL(d) - 1) : ty[i] \in LevelTypes
-      /\ \A i, j \in 1..NL(d) : (i # j /\ ty[i] = ty[j]) => ty[i] = GROUP
-      /\ ~(NUMANODE \in {ty[i] : i \in 1..NL(d)} /\ AllAtt(d) # <<>>)}
+  {ty \in TypeSeqs(d, s, 1) : \A i, j \in 1..NL(d) : (i # j /\ ty[i] = ty[j]) => ty[i] = GROUP}
+\* many untyped levels: only what does not depend on the types (the PUs and their indexes, widths among the written ones)
+BuildRelUntypedDeep(d, s) ==
+  LET pu == PUIdx(d) IN
+  /\ s.depth = Len(s.lv) /\ s.depth >= 2 /\ s.rsym = 1
+  /\ s.lv[1].type = MACHINE /\ s.lv[Len(s.lv)].type = PU /\ s.lv[Len(s.lv)].nb = NPU(d)
+  /\ \A k \in DOMAIN s.lv : \E i \in 0..NL(d) : s.lv[k].nb = WidthAt(d, i)
+  /\ UniformArities(s) /\ LevelSets(pu, s) /\ PUSets(s)
+  /\ Len(s.numa) >= 1
 BuildRel(d, s) ==
   IF ~Untyped(d) THEN BuildRelTyped(d, s)
   ELSE IF NL(d) = 5 /\ AllAtt(d) = <<>> THEN BuildRelTyped(WithTypes(d, DocDefault5), s)
-  ELSE \E ty \in Assignments(d, s) : BuildRelTyped(WithTypes(d, ty), s)
+  ELSE IF NL(d) <= 5 THEN \E ty \in Assignments(d, s) : BuildRelTyped(WithTypes(d, ty), s)
+  ELSE BuildRelUntypedDeep(d, s)
 
 \* hwloc.h: "If description was properly parsed and describes a valid topology configuration, this function
 \* returns 0. Otherwise -1 is returned and errno is set to EINVAL."  The number of levels hwloc accepts is not
